@@ -33,7 +33,7 @@ import (
 func init() {
 	core.RegisterMeta("C34", core.Meta{
 		Rule: "zcrypto<->zcrypto pairs (TLS 1.2 and 1.3; GCM, ChaCha20, CBC, RC4), 2..8 goroutines per side with random programs over Read / Write / Handshake (also racing into the first handshake) / ConnectionState / " +
-			"GetHandshakeLog (after the caller's own Handshake returned) / SetDeadline, SetReadDeadline, SetWriteDeadline (zero, far, near, past) / CloseWrite / Close, optional mid-transfer CloseWrite, Close or transport cut; " +
+			"GetHandshakeLog (after the caller's own Handshake returned) / SetDeadline, SetReadDeadline, SetWriteDeadline (zero, far, near, past) / CloseWrite / Close, optional mid-transfer CloseWrite, Close or transport cut; TLS 1.3 sessions also send KeyUpdate messages (driver hook VerifSendKeyUpdate), one family with a dedicated key-update goroutine per side against 3-4 small-write writers; " +
 			"writes are writer-tagged, sequence-numbered 8-byte cells so interleaved Write calls stay decodable; single-reader sessions check the exact stream, multi-reader sessions check per-fragment chunk structure, no duplicate / lost cell, per-reader order; " +
 			"after both transports are closed every goroutine must return. non-trivial = both handshakes completed, data delivered, >= 4 distinct kinds of operation pairs overlapped in time; distinct by (plan, set of overlapping pairs). race leg: same sessions under -race",
 		MinNontrivial:         200,
@@ -68,6 +68,8 @@ type c34Plan struct {
 	CloserAt  int    // microseconds after start
 	CloserOn  int    // side
 	EarlyHS   bool   // everybody starts with an explicit Handshake
+	KU        int    // TLS 1.3 key updates: 0 none, 1 sprinkled into the misc programs, 2 dedicated goroutine per side against several small-write writers
+	KUCount   int
 	Seed      uint64
 }
 
@@ -158,6 +160,28 @@ func genC34Plan(seed int64, leg string, idx int) *c34Plan {
 	}
 	p.CloserAt = 200 + rng.IntN(20000)
 	p.CloserOn = rng.IntN(2)
+	tls13 := strings.HasPrefix(p.Cell, "0304/")
+	if idx%4 == 3 {
+		// key-update family: the peer keeps asking for key updates while several writers with small writes queue on the
+		// same connection; nothing else disturbs the session, so every successful Write must arrive
+		p.Cell = []string{"0304/1301", "0304/1303", "0304/1302"}[(idx/4)%3]
+		for s := 0; s < 2; s++ {
+			p.NW[s], p.NR[s], p.NM[s] = 3+rng.IntN(2), 1, rng.IntN(2)
+		}
+		p.Chunks = 60 + rng.IntN(70)
+		p.MaxCells = 3
+		p.Procs = []int{2, 4, 16}[rng.IntN(3)]
+		p.Delay, p.Deadlines, p.Closer = true, false, "none"
+		p.KU, p.KUCount = 2, 30+rng.IntN(50)
+		tls13 = true
+	} else if tls13 && rng.IntN(2) == 0 {
+		p.KU = 1
+	}
+	if p.KU > 0 {
+		// answering a key update needs the out lock inside Read; with a bounded pipe both sides can wait for each other's reader
+		p.Capacity = 0
+	}
+	_ = tls13
 	return p
 }
 
@@ -370,6 +394,8 @@ func runC34Session(c *core.Ctx, id string, cl cell, p *c34Plan, pairKinds map[st
 								}
 							})
 						}
+					case k < 10 && p.KU == 1 && hsOK:
+						sess.op(g, "KeyUpdate", func() { conn.VerifSendKeyUpdate(r.IntN(2) == 0) })
 					case k < 11:
 						sess.op(g, "SetDeadline", func() { conn.SetDeadline(time.Time{}) })
 					case k < 12:
@@ -395,6 +421,32 @@ func runC34Session(c *core.Ctx, id string, cl cell, p *c34Plan, pairKinds map[st
 					} else {
 						runtime.Gosched()
 					}
+				}
+			}()
+		}
+	}
+	if p.KU == 2 {
+		for side := 0; side < 2; side++ {
+			conn := conns[side]
+			g := &gState{side: side, role: "keyupdate"}
+			all = append(all, g)
+			r := rand.New(rand.NewPCG(p.Seed, uint64(400+side)))
+			wgMisc[side].Add(1)
+			go func() {
+				defer wgMisc[side].Done()
+				<-gate
+				var err error
+				sess.op(g, "Handshake", func() { err = conn.Handshake() })
+				if err != nil {
+					return
+				}
+				for i := 0; i < p.KUCount; i++ {
+					time.Sleep(time.Duration(r.IntN(400)) * time.Microsecond)
+					sess.op(g, "KeyUpdate", func() { err = conn.VerifSendKeyUpdate(r.IntN(4) != 0) })
+					if err != nil {
+						return
+					}
+					g.okChunks++
 				}
 			}()
 		}
@@ -514,6 +566,20 @@ func runC34Session(c *core.Ctx, id string, cl cell, p *c34Plan, pairKinds map[st
 		orderly := !((p.Closer == "close" || p.Closer == "cut") && p.CloserOn == from)
 		key, detail, got := checkStream(writers, readers, orderly)
 		delivered += got
+		if key == "" && hsOK && p.Closer == "none" && !p.Deadlines && !watchdog {
+			// nothing disturbed this session (no close, no cut, no deadline): the direction must end in order,
+			// every Write must have succeeded and every reader must see EOF after the last byte
+			for _, w := range writers {
+				if w.writeErr != nil {
+					key, detail = "write-error-in-undisturbed-session", fmt.Sprintf("writer %d: chunk %d: %v", w.id, w.okChunks, w.writeErr)
+				}
+			}
+			for _, r := range readers {
+				if r.readErr != io.EOF {
+					key, detail = "reader-error-in-undisturbed-session", fmt.Sprintf("reader %d ended with %v after %d fragments; the peer's writers had %d successful Write calls in total", r.id, r.readErr, len(r.frags), okTotal(writers))
+				}
+			}
+		}
 		if key != "" {
 			dir := "client->server"
 			if from == 1 {
@@ -721,4 +787,12 @@ func checkStream(writers, readers []*gState, orderly bool) (key, detail string, 
 		}
 	}
 	return "", "", cells
+}
+
+func okTotal(ws []*gState) int {
+	n := 0
+	for _, w := range ws {
+		n += w.okChunks
+	}
+	return n
 }
